@@ -849,6 +849,11 @@ def install_modular(it, db, classmap, root_class, leftovers=None):
                 if i is not None:
                     t = sl.toks[i]
                     if t.kind == 'TYPE' and t.t == info['type'] and not (cls.name == root_class and it.depth == 0) and cls.name not in INLINE:
+                        # natural-number type arguments: what the code passes down must be what the schema says at this point
+                        want = [a for a in t.args if isinstance(a, int)]
+                        have = [a.v for a in args[2:] if isinstance(a, K) and isinstance(a.v, int) and not isinstance(a.v, bool)]
+                        if want and have and want[:len(have)] != have[:len(want)]:
+                            raise Mismatch(f'{cls.name}.deserialize is called with argument(s) {have} where the schema has {t.t} {want}')
                         sl.toks.pop(i)
                         sl.trace.append((f'{cls.name}.deserialize', repr(t)))
                         left = leftovers.get(cls.name)
